@@ -33,7 +33,7 @@ class C11(EngineProp):
     # -- the byte-stream transport: the link is cut between any two bytes, by EOF or by a read error -------------------------
     def cases(self, rng, tier):
         out = super().cases(rng, tier)
-        for _ in range(90 if tier == 'quick' else 3000):
+        for _ in range(240 if tier == 'quick' else 3000):
             out.append({'mode': 'tcp', 'role': rng.choice(['client', 'server']), 'profile': 'tcp-cut', 'cut': rng.choice(['eof', 'reset', 'timeout']),
                         'partial': rng.randint(0, 40), 'rr': rng.randint(0, 2), 'streams': rng.randint(0, 2), 'incoming': rng.randint(0, 2),
                         'producers': rng.choice([0, 1, 1, 2]), 'producer_kind': rng.choice(['gen', 'agen']), 'producer_when': rng.choice(['early', 'same-read'])})
